@@ -21,7 +21,9 @@ RULE = (
     "distinct by hash of (op, string). oracle: same strings on the real code (no exception, split/join identity, chunk "
     "bounds, purity, fast==slow on the sub-grammar AND on every generated string the model's recogniser agreeClass "
     "accepts (joined and list form), exact MTextEditor round trip for both decoders incl. split=True and bullet lists, size "
-    "estimators / MTextExplode / wrapping / scaling without exception for several MTEXT attribute sets, MTEXT content through a real DXF file)."
+    "estimators / MTextExplode / wrapping / scaling without exception for seven MTEXT attribute sets (attachment points, widths with and "
+    "without default tab stops), a layout grid (tabulator / alignment / tab stop contents and editor outputs x 9 attachment points x widths x "
+    "heights), font commands with every flag list over b i 1 0 c |, the tags of the real export_mtext_content, MTEXT content through a real DXF file)."
 )
 TRUSTED_BASE = [
     "CPython str/re semantics for the modelled regexes (hand model of RE_FLOAT/RE_FLOAT_X/\\d+ tied to the pattern text by Gen/TextTables)",
@@ -30,7 +32,8 @@ TRUSTED_BASE = [
     "non-ASCII decimal digits (matched by \\d) are outside the model",
     "hand translation of tools/text.py into Model/Text.lean (validated by X1-X5, not proved); command dispatch, token commands "
     "`in` character sets and the context attributes assigned per command (frame conditions) are extracted from the AST each run "
-    "(Gen/TextTables dispatch/tokenCmds/inSets/assigns) and proved equal to / respected by the model",
+    "(Gen/TextTables dispatch/tokenCmds/inSets/assigns) and proved equal to / respected by the model; the bodies of eight line-by-line "
+    "transcribed helpers are pinned by source_bodies_fixed (ast.unparse of the running CPython is trusted to be stable)",
 ]
 ASSUMPTIONS = [
     "sys.get_int_max_str_digits() == 4300",
@@ -51,7 +54,7 @@ OPEN = [
 ]
 
 ALPHA = ["\\", "{", "}", ";", "^", "%", ",", "0", "a", " ", "S", "H"]
-ARGALPHA = ["0", "1", ".", ":", "e", "x", ";", "+", "-", "\\", "a", ",", "^", "/", "#", "*", "c", "r", "t", "q", "i", "l"]
+ARGALPHA = ["0", "1", ".", ":", "e", "x", ";", "+", "-", "\\", "a", ",", "^", "/", "#", "*", "c", "r", "t", "q", "i", "l", "|", "b"]
 CMDS = "LlOoKkACcHWQTpfFSPNX~;\\{}%z"
 RICH = list("\\\\\\{}{};;^^%%|,,01239.:eExX+-*/# \t\naépqilrtcCHSAQWTFfPNLOK~d")
 
@@ -178,6 +181,37 @@ def extract_dispatch(src: str):
     return dispatch, tokens, sets, assigns
 
 
+# small pure helpers whose Lean model is a line by line transcription: their bodies (AST, docstring removed, re-printed by
+# ast.unparse) are regenerated into Gen/TextTables.bodies and pinned by the theorem `source_bodies_fixed`
+BODY_FUNCS = [
+    ("src/ezdxf/entities/mtext.py", "export_mtext_content"),
+    ("src/ezdxf/tools/text.py", "load_mtext_content"),
+    ("src/ezdxf/tools/text.py", "split_mtext_string"),
+    ("src/ezdxf/tools/text.py", "escape_dxf_line_endings"),
+    ("src/ezdxf/tools/text.py", "caret_decode"),
+    ("src/ezdxf/tools/text.py", "safe_string"),
+    ("src/ezdxf/lldxf/validator.py", "fix_one_line_text"),
+    ("src/ezdxf/lldxf/validator.py", "is_valid_one_line_text"),
+]
+
+
+def extract_bodies(ctx):
+    import ast
+
+    out = []
+    for rel, name in BODY_FUNCS:
+        tree = ast.parse(ctx.src(rel))
+        fn = [n for n in tree.body if isinstance(n, ast.FunctionDef) and n.name == name]
+        if len(fn) != 1:
+            raise ValueError(f"{rel}: function {name} not found")
+        body = fn[0].body
+        if body and isinstance(body[0], ast.Expr) and isinstance(body[0].value, ast.Constant) and isinstance(body[0].value.value, str):
+            body = body[1:]
+        args = ast.unparse(fn[0].args)
+        out.append((name, "(" + args + ") " + " ;; ".join(ast.unparse(st).replace("\n", " ;; ") for st in body)))
+    return out
+
+
 def regenerate(ctx):
     src = ctx.src("src/ezdxf/tools/text.py")
     ctx.src("src/ezdxf/lldxf/const.py")
@@ -218,6 +252,9 @@ def tokenCmds : List (Char × String) := {lean_list(lean_pair(l, k) for l, k in 
     assigns, from the AST; `continue_stroke` is assigned behind the if-chain for every command -/
 def assigns : List (Char × List String) := {lean_list("(Char.ofNat " + str(ord(l)) + ", " + lean_list(lean_str(a) for a in attrs) + ")" for l, attrs in assigns)}
 
+/-- bodies of the small helpers that the model transcribes line by line (AST re-printed, docstrings removed) -/
+def bodies : List (String × String) := {lean_list("(" + lean_str(n) + ", " + lean_str(b) + ")" for n, b in extract_bodies(ctx))}
+
 /-- character sets used with `in` (function, sets in source order), from the AST -/
 def inSets : List (String × List String) := {lean_list("(" + lean_str(n) + ", " + lean_list(lean_str(x) for x in ss) + ")" for n, ss in sets)}
 
@@ -238,7 +275,7 @@ def oneCharCommands : String := {lean_str(T.ONE_CHAR_COMMANDS)}
 
 end EzdxfVerif.Gen.TextTables
 """
-    ctx.write_gen("TextTables", text, ["src/ezdxf/tools/text.py", "src/ezdxf/lldxf/const.py"])
+    ctx.write_gen("TextTables", text, ["src/ezdxf/tools/text.py", "src/ezdxf/lldxf/const.py", "src/ezdxf/entities/mtext.py", "src/ezdxf/lldxf/validator.py"])
 
 
 # ------------------------------------------------------------------ implementation side
@@ -335,7 +372,9 @@ def strings(ctx):
     arglen = ctx.n(2, 3)
     for c in CMDS:
         for n in range(0, arglen + 1):
-            for t in itertools.product(ARGALPHA, repeat=n):
+            # the longest layer uses the font flag symbols "|", "b" only for the commands that read them (thorough run time)
+            alpha = ARGALPHA if (n < 3 or c in "fFp") else ARGALPHA[:22]
+            for t in itertools.product(alpha, repeat=n):
                 yield "cmd", "\\" + c + "".join(t)
     # paragraph / stacking / special templates
     for body in ["i1,l2,r3,qc,t1,c2,r3", "i1:.2", "xqj", "t*,z", "i-1.5e3,l+2.,r.5", "q", "t", "tc", "tr1e", "i1e+"]:
@@ -345,6 +384,18 @@ def strings(ctx):
         for tail in ["", ";", ";x"]:
             yield "tmpl", "x\\S" + body + tail
     for s in ["%%c", "%%C", "%%d%%p", "%%", "%", "%%%", "%%k%%o%%u%%K", "%%x", "a%%", "%%K", "^", "a^", "^^", "^I^J^M", "^ ", "\\~\\X\\N"]:
+        yield "tmpl", s
+    # font commands: every flag list over the flag alphabet (truncated flags "|b", "|i|", empty parts, repeated / contradicting
+    # flags, code page and pitch parts), with and without family name, terminated / at the end / followed by text
+    flaglen = ctx.n(3, 4)
+    for d in "fF":
+        for name in ("", "A", "Arial Narrow"):
+            for n in range(0, flaglen + 1):
+                for tpl in itertools.product("bi10c|", repeat=n):
+                    for tail in ("", ";x"):
+                        yield "font", "\\" + d + name + "|" + "".join(tpl) + tail
+    # tabulators in front of content, aligned paragraphs, explicit tab stops (layout engine paths)
+    for s in LAYOUT_CONTENTS:
         yield "tmpl", s
     for s, _, _ in DIFFER:
         yield "tmpl", s
@@ -364,6 +415,14 @@ def strings(ctx):
 
 
 CONTROL = set("\\{};^%")
+
+# contents for the layout engine: tabulator x paragraph alignment x tab stops x stacking / groups / non breaking space
+LAYOUT_CONTENTS = [
+    "a^Ib", "^Ib", "a^I", "^I^Ib", "a ^I b c", "1.^Iitem one\\P2.^Iitem two\\P", "\\pqc;a^Ib", "\\pqr;a^Ib", "\\pqj;a^Ib c d e f g h",
+    "\\pqd;a^Ib c d", "\\pql;a^Ib", "\\pqc,t2,c4,r6;a^Ib^Ic^Id^Ie", "\\pqr,t1;^Ia", "\\pxi-3,l4,t4;-^Iitem\\P-^Iitem\\P", "{\\pqc;a^Ib}c^Id",
+    "\\pqc;\\S1/2;^Ib", "\\pqr;^I\\~x", "\\pqc;a^I\\H3x;b^Ic", "\\pqr;a\\P^Ib\\Pc^I", "\\pqc;^I", "\\pi2,l2,r2,qc;a^Ib", "\\pqc;a^Ib\\Nc^Id",
+    "\\pt4;a^Ib", "\\ptc4;a^Ib", "\\ptr4;a^Ib", "\\pt0.1,0.2,0.3;a^Ib^Ic^Id^Ie", "\\pt1000;a^Ib", "\\pqc;" + "w " * 30 + "^Ix",
+]
 
 # the counterexample theorems `differ_*` of Props/C20.lean, replayed on the real code: (content, plain_mtext, fast_plain_mtext)
 DIFFER = [
@@ -501,7 +560,8 @@ def oracle(ctx):
     msp = doc.modelspace()
     mtext = msp.add_mtext("")
     # size estimators: MTEXT with undefined width (estimated), narrow / wide columns, zero char height; TEXT / ATTRIB
-    sized = [msp.add_mtext("", dxfattribs={"width": w, "char_height": h}) for w, h in ((0.0, 2.5), (0.5, 2.5), (5, 1), (100, 0.2), (3, 0))]
+    sized = [msp.add_mtext("", dxfattribs={"width": w, "char_height": h, "attachment_point": ap})
+             for w, h, ap in ((0.0, 2.5, 1), (0.5, 2.5, 4), (5, 1, 8), (100, 0.2, 9), (3, 0, 7), (30, 2.5, 2), (60, 1, 6))]
     one_line = msp.add_text("")
     n = 0
     every = ctx.n(37, 11)
@@ -539,8 +599,8 @@ def oracle(ctx):
                         T.estimate_mtext_extents(m, fast=False)
                 except Exception as e:  # noqa
                     ctx.fail(f"total/mtext_size/{type(e).__name__}/{i}/{s[:40]!r}",
-                             f"mtext_size / estimate_mtext_extents of MTEXT(width={m.dxf.width}, char_height={m.dxf.char_height}) with content {s[:80]!r} raised {type(e).__name__}: {e}",
-                             {"op": "size", "text": s, "width": m.dxf.width, "char_height": m.dxf.char_height})
+                             f"mtext_size / estimate_mtext_extents of MTEXT(width={m.dxf.width}, char_height={m.dxf.char_height}, attachment_point={m.dxf.attachment_point}) with content {s[:80]!r} raised {type(e).__name__}: {e}",
+                             {"op": "size", "text": s, "width": m.dxf.width, "char_height": m.dxf.char_height, "attachment_point": m.dxf.attachment_point})
             try:
                 one_line.dxf.text = s
                 TS.text_size(one_line)
@@ -657,6 +717,93 @@ def oracle(ctx):
             ctx.disagree("X4 differ replays", s, f"{T.plain_mtext(s)!r} / {T.fast_plain_mtext(s)!r}", f"{slow!r} / {fast!r}")
     editor_oracle(ctx)
     file_roundtrip_oracle(ctx)
+    export_tags_oracle(ctx)
+    layout_grid_oracle(ctx)
+
+
+def layout_grid_oracle(ctx):
+    """O1d: totality of the layout engine over (content with tabulators / aligned paragraphs / tab stops, incl. every kind of
+    MTextEditor output) x all 9 attachment points x column widths (undefined, narrower than a word, no default tab stop, default
+    tab stops, wide) x char heights x line spacing: mtext_size, estimate_mtext_extents, MTextExplode"""
+    import ezdxf
+    from ezdxf.tools import text as T, text_size as TS
+    from ezdxf.tools.text import MTextEditor, ParagraphProperties
+    from ezdxf.addons import MTextExplode
+
+    rng = ctx.rng("layout")
+    contents = [T.caret_decode(s) if False else s for s in LAYOUT_CONTENTS]
+    for al in T.MTextParagraphAlignment:
+        e = MTextEditor().paragraph(ParagraphProperties(indent=1, left=2, right=1, align=al, tab_stops=(4, "c8", "r12")))
+        contents.append(str(e.append("a" + MTextEditor.TAB + "b c" + MTextEditor.TAB + "d" + MTextEditor.NEW_PARAGRAPH + "e" + MTextEditor.TAB)))
+        contents.append(str(MTextEditor().paragraph(ParagraphProperties(align=al)).bullet_list(2, ["-", "1."], ["first item", "second"]).append("x" + MTextEditor.TAB + "y")))
+    contents.append(str(MTextEditor().bullet_list(0, ["-"], ["a"])))
+    contents.append(str(MTextEditor().bullet_list(40, ["•", "•", "•"], ["a b c d e f g h i j k l m n o p", "", "x"])))
+    # a sample of the generated editor call sequences (all methods incl. TAB / bullet lists)
+    for i, (desc, req, text, expect) in enumerate(editor_cases(ctx)):
+        if i % ctx.n(40, 25) == 0 and text:
+            contents.append(text)
+    contents = list(dict.fromkeys(contents))
+    doc = ezdxf.new()
+    msp = doc.modelspace()
+    widths = (0.0, 1.0, 8.0, 30.0, 120.0)
+    heights = (2.5, 0.5)
+    for s in contents:
+        for ap in range(1, 10):
+            for w in widths:
+                for h in heights:
+                    ls = rng.choice([1.0, 1.0, 0.25, 4.0])
+                    ctx.count("O1d layout grid", (s, ap, w, h), True)
+                    attribs = {"width": w, "char_height": h, "attachment_point": ap, "line_spacing_factor": ls}
+                    explode = (ap + int(w)) % 3 == 0
+                    try:
+                        m = msp.add_mtext(s, dxfattribs=attribs)
+                        TS.mtext_size(m)
+                        T.estimate_mtext_extents(m)
+                        if explode:
+                            with MTextExplode(msp) as xpl:
+                                xpl.explode(m, destroy=False)
+                        msp.delete_entity(m)
+                    except Exception as e:  # noqa
+                        ctx.fail(f"total/layout/{type(e).__name__}/{ap}/{w}/{h}/{s[:40]!r}",
+                                 f"mtext_size / MTextExplode of MTEXT(attachment_point={ap}, width={w}, char_height={h}, line_spacing_factor={ls}) "
+                                 f"with content {s[:80]!r} raised {type(e).__name__}: {e}",
+                                 {"op": "size", "text": s, "width": w, "char_height": h, "attachment_point": ap, "explode": explode})
+
+
+def export_tags_oracle(ctx):
+    """O6: export_mtext_content on the real code (theorem export_tags_wellformed): at least one tag, every value at most 250
+    characters and free of LF / CR, group code 3 for all but the last and 1 for the last, values join to the escaped content;
+    content lengths around the chunk limit with line feeds (each becomes two characters) and carets"""
+    from ezdxf.entities.mtext import export_mtext_content
+    from ezdxf.tools import text as T
+
+    class Collector:
+        def __init__(self):
+            self.tags = []
+
+        def write_tag2(self, code, value):
+            self.tags.append((code, value))
+
+    rng = ctx.rng("exporttags")
+    for _ in range(ctx.n(1500, 15000)):
+        n = rng.choice([0, 1, 2, 124, 125, 126, 200, 245, 246, 247, 248, 249, 250, 251, 252, 498, 499, 500, 501, 502, 748, 749, 750, 1000])
+        alphabet = rng.choice(["ab", "ab\n", "a\n\n\n", "^a", "^^a\n", "ab\r\n", "a\\P{};%^\n "])
+        s = "".join(rng.choice(alphabet) for _ in range(n))
+        ctx.count("O6 export tags", s, "\n" in s or "^" in s)
+        w = Collector()
+        try:
+            export_mtext_content(s, w)
+        except Exception as e:  # noqa
+            ctx.fail(f"export/raise/{type(e).__name__}/{len(s)}/{s[:30]!r}", f"export_mtext_content(content of length {len(s)}) raised {type(e).__name__}: {e}",
+                     {"op": "exporttags", "text": s})
+            continue
+        tags = w.tags
+        ok = (len(tags) >= 1 and all(len(v) <= 250 and "\n" not in v and "\r" not in v for _, v in tags)
+              and [c for c, _ in tags] == [3] * (len(tags) - 1) + [1] and "".join(v for _, v in tags) == T.escape_dxf_line_endings(s))
+        if not ok:
+            ctx.fail(f"export/tags/{len(s)}/{s[:30]!r}",
+                     f"export_mtext_content(content of length {len(s)} with {s.count(chr(10))} line feeds) wrote tags (code, len) = {[(c, len(v)) for c, v in tags][:6]}: "
+                     f"chunk limit 250 / group codes / join violated", {"op": "exporttags", "text": s})
 
 
 def file_roundtrip_oracle(ctx):
@@ -1029,6 +1176,19 @@ def replay(ctx, rep):
             elif r["op"] == "fastslow":
                 assert T.fast_plain_mtext(r["text"]) == T.plain_mtext(r["text"])
                 assert T.fast_plain_mtext(r["text"], split=True) == T.plain_mtext(r["text"], split=True)
+            elif r["op"] == "exporttags":
+                from ezdxf.entities.mtext import export_mtext_content
+
+                class W:
+                    tags = []
+
+                    def write_tag2(self, c, v):
+                        self.tags.append((c, v))
+
+                w = W(); w.tags = []
+                export_mtext_content(r["text"], w)
+                assert all(len(v) <= 250 for _, v in w.tags) and [c for c, _ in w.tags] == [3] * (len(w.tags) - 1) + [1]
+                assert "".join(v for _, v in w.tags) == T.escape_dxf_line_endings(r["text"])
             elif r["op"] == "file":
                 import io, ezdxf
                 doc = ezdxf.new(r["version"]); h = doc.modelspace().add_mtext(r["text"]).dxf.handle
@@ -1043,8 +1203,13 @@ def replay(ctx, rep):
             elif r["op"] == "size":
                 import ezdxf
                 from ezdxf.tools import text_size as TS
-                m = ezdxf.new().modelspace().add_mtext(r["text"], dxfattribs={"width": r["width"], "char_height": r["char_height"]})
+                m = ezdxf.new().modelspace().add_mtext(r["text"], dxfattribs={"width": r["width"], "char_height": r["char_height"],
+                                                                             "attachment_point": r.get("attachment_point", 1)})
                 TS.mtext_size(m); T.estimate_mtext_extents(m)
+                if r.get("explode"):
+                    from ezdxf.addons import MTextExplode
+                    with MTextExplode(m.doc.modelspace()) as xpl:
+                        xpl.explode(m)
             elif r["op"] == "size1":
                 import ezdxf
                 from ezdxf.tools import text_size as TS
